@@ -7,5 +7,11 @@ for d in /tmp/seed/C*-out/[12]; do
   [ -f "$d/verify.log" ] && grep -q '^RESULT' "$d/verify.log" && continue
   echo "=== $d $(date +%H:%M:%S)"
   git -C /repo apply --stat "$d/patch.diff" 2>/dev/null | head -5
-  ./seedtest.sh "$d" quick 2>&1 | grep -E "^(RESULT|check|demo|existing)"
+  EXTRA=""
+  case "$d" in
+    */C01-out/1) EXTRA="C02";;
+    */C07-out/2) EXTRA="C08";;
+    */C05-out/2) EXTRA="C18";;
+  esac
+  ./seedtest.sh "$d" quick $EXTRA 2>&1 | grep -E "^(RESULT|check|demo|existing)"
 done
